@@ -1,0 +1,302 @@
+//go:build verif && (verif_all || verif_c04)
+// +build verif
+// +build verif_all verif_c04
+
+package gocql
+
+// Verification hooks for C04 (well-formed responses are decoded to exactly what the server said):
+// exported wrappers that run the REAL receive path (readHeader, readFrame, parseFrame) on given bytes,
+// a canonical dump of every field of the parsed (unexported) frame structs, and a builder of a real
+// Iter from a parsed RESULT/Rows frame. Add-only.
+
+import (
+	"bytes"
+	"encoding/hex"
+	"fmt"
+	"net"
+	"sort"
+	"strings"
+)
+
+func verifC04Hex(b []byte) string {
+	if b == nil {
+		return "nil"
+	}
+	if len(b) == 0 {
+		return "-"
+	}
+	return hex.EncodeToString(b)
+}
+
+func verifC04Str(s string) string {
+	if len(s) == 0 {
+		return "-"
+	}
+	return hex.EncodeToString([]byte(s))
+}
+
+func verifC04StrList(l []string) string {
+	p := make([]string, len(l))
+	for i, s := range l {
+		p[i] = verifC04Str(s)
+	}
+	return "[" + strings.Join(p, ",") + "]"
+}
+
+// VerifC04DumpType prints a TypeInfo completely. `proto` is the version every nested NativeType must carry.
+func VerifC04DumpType(t TypeInfo, proto byte) string {
+	nat := func(n NativeType) string {
+		s := fmt.Sprintf("%d,%s", int(n.typ), verifC04Str(n.custom))
+		if n.proto != proto {
+			s += fmt.Sprintf(",!proto=%d", n.proto)
+		}
+		return s
+	}
+	switch v := t.(type) {
+	case NativeType:
+		return "N(" + nat(v) + ")"
+	case CollectionType:
+		k := "nil"
+		if v.Key != nil {
+			k = VerifC04DumpType(v.Key, proto)
+		}
+		e := "nil"
+		if v.Elem != nil {
+			e = VerifC04DumpType(v.Elem, proto)
+		}
+		return "C(" + nat(v.NativeType) + "," + k + "," + e + ")"
+	case TupleTypeInfo:
+		p := make([]string, len(v.Elems))
+		for i, e := range v.Elems {
+			p[i] = VerifC04DumpType(e, proto)
+		}
+		return "T(" + nat(v.NativeType) + ",[" + strings.Join(p, ",") + "])"
+	case UDTTypeInfo:
+		p := make([]string, len(v.Elements))
+		for i, e := range v.Elements {
+			p[i] = verifC04Str(e.Name) + ":" + VerifC04DumpType(e.Type, proto)
+		}
+		return "U(" + nat(v.NativeType) + "," + verifC04Str(v.KeySpace) + "," + verifC04Str(v.Name) + ",[" + strings.Join(p, ",") + "])"
+	case nil:
+		return "nil"
+	}
+	return fmt.Sprintf("?%T", t)
+}
+
+func verifC04Meta(m resultMetadata, proto byte) string {
+	p := make([]string, len(m.columns))
+	for i, c := range m.columns {
+		p[i] = verifC04Str(c.Keyspace) + "." + verifC04Str(c.Table) + "." + verifC04Str(c.Name) + ":" + VerifC04DumpType(c.TypeInfo, proto)
+	}
+	return fmt.Sprintf("M(%d,%s,[%s],%d,%d)", m.flags, verifC04Hex(m.pagingState), strings.Join(p, ","), m.colCount, m.actualColCount)
+}
+
+func verifC04ErrMap(m ErrorMap) string {
+	if m == nil {
+		return "nil"
+	}
+	p := make([]string, 0, len(m))
+	for k, c := range m {
+		ip := net.ParseIP(k)
+		var key []byte
+		if ip4 := ip.To4(); ip4 != nil {
+			key = ip4
+		} else {
+			key = ip.To16()
+		}
+		p = append(p, fmt.Sprintf("%s=%d", verifC04Hex(key), c))
+	}
+	sort.Strings(p)
+	return "{" + strings.Join(p, ",") + "}"
+}
+
+// verifC04Hdr: "1" if the struct's embedded header is a copy of the framer's header (including the
+// warnings), "0" if it is the zero header.
+func verifC04Hdr(h frameHeader, want *frameHeader) string {
+	eq := func(a, b frameHeader) bool {
+		if a.version != b.version || a.flags != b.flags || a.stream != b.stream || a.op != b.op || a.length != b.length ||
+			len(a.warnings) != len(b.warnings) || (a.warnings == nil) != (b.warnings == nil) {
+			return false
+		}
+		for i := range a.warnings {
+			if a.warnings[i] != b.warnings[i] {
+				return false
+			}
+		}
+		return true
+	}
+	if eq(h, *want) {
+		return "1"
+	}
+	if eq(h, frameHeader{}) {
+		return "0"
+	}
+	return "?" + h.String()
+}
+
+func verifC04Frame(fr frame, f *framer) string {
+	proto := f.proto
+	h := func(x frameHeader) string { return verifC04Hdr(x, f.header) }
+	e := func(x errorFrame, d string) string {
+		return fmt.Sprintf("H:%s F:ERR(%d,%s,%s)", h(x.frameHeader), x.code, verifC04Str(x.message), d)
+	}
+	switch v := fr.(type) {
+	case errorFrame:
+		return e(v, "plain")
+	case *RequestErrUnavailable:
+		return e(v.errorFrame, fmt.Sprintf("unav(%d,%d,%d)", uint16(v.Consistency), v.Required, v.Alive))
+	case *RequestErrWriteTimeout:
+		return e(v.errorFrame, fmt.Sprintf("wto(%d,%d,%d,%s)", uint16(v.Consistency), v.Received, v.BlockFor, verifC04Str(v.WriteType)))
+	case *RequestErrReadTimeout:
+		return e(v.errorFrame, fmt.Sprintf("rto(%d,%d,%d,%d)", uint16(v.Consistency), v.Received, v.BlockFor, v.DataPresent))
+	case *RequestErrAlreadyExists:
+		return e(v.errorFrame, fmt.Sprintf("ae(%s,%s)", verifC04Str(v.Keyspace), verifC04Str(v.Table)))
+	case *RequestErrUnprepared:
+		return e(v.errorFrame, fmt.Sprintf("unp(%s)", verifC04Hex(v.StatementId)))
+	case *RequestErrReadFailure:
+		return e(v.errorFrame, fmt.Sprintf("rf(%d,%d,%d,%d,%v,%s)", uint16(v.Consistency), v.Received, v.BlockFor, v.NumFailures, v.DataPresent, verifC04ErrMap(v.ErrorMap)))
+	case *RequestErrWriteFailure:
+		return e(v.errorFrame, fmt.Sprintf("wf(%d,%d,%d,%d,%s,%s)", uint16(v.Consistency), v.Received, v.BlockFor, v.NumFailures, verifC04Str(v.WriteType), verifC04ErrMap(v.ErrorMap)))
+	case *RequestErrFunctionFailure:
+		return e(v.errorFrame, fmt.Sprintf("ff(%s,%s,%s)", verifC04Str(v.Keyspace), verifC04Str(v.Function), verifC04StrList(v.ArgTypes)))
+	case *RequestErrCDCWriteFailure:
+		return e(v.errorFrame, "cdc")
+	case *RequestErrCASWriteUnknown:
+		return e(v.errorFrame, fmt.Sprintf("cas(%d,%d,%d)", uint16(v.Consistency), v.Received, v.BlockFor))
+	case *readyFrame:
+		return "H:" + h(v.frameHeader) + " F:READY"
+	case *supportedFrame:
+		keys := make([]string, 0, len(v.supported))
+		for k := range v.supported {
+			keys = append(keys, verifC04Str(k)+"="+verifC04StrList(v.supported[k]))
+		}
+		sort.Strings(keys)
+		return "H:" + h(v.frameHeader) + " F:SUP{" + strings.Join(keys, ",") + "}"
+	case *authenticateFrame:
+		return "H:" + h(v.frameHeader) + " F:AUTH(" + verifC04Str(v.class) + ")"
+	case *authChallengeFrame:
+		return "H:" + h(v.frameHeader) + " F:CHAL(" + verifC04Hex(v.data) + ")"
+	case *authSuccessFrame:
+		return "H:" + h(v.frameHeader) + " F:SUCC(" + verifC04Hex(v.data) + ")"
+	case *resultVoidFrame:
+		return "H:" + h(v.frameHeader) + " F:VOID"
+	case *resultRowsFrame:
+		return "H:" + h(v.frameHeader) + " F:ROWS(" + verifC04Meta(v.meta, proto) + fmt.Sprintf(",%d)", v.numRows)
+	case *resultKeyspaceFrame:
+		return "H:" + h(v.frameHeader) + " F:KS(" + verifC04Str(v.keyspace) + ")"
+	case *resultPreparedFrame:
+		pk := "nil"
+		if v.reqMeta.pkeyColumns != nil {
+			p := make([]string, len(v.reqMeta.pkeyColumns))
+			for i, x := range v.reqMeta.pkeyColumns {
+				p[i] = fmt.Sprint(x)
+			}
+			pk = "[" + strings.Join(p, ",") + "]"
+		}
+		return "H:" + h(v.frameHeader) + " F:PREP(" + verifC04Hex(v.preparedID) + ",PM(" + verifC04Meta(v.reqMeta.resultMetadata, proto) + "," + pk + "," +
+			verifC04Str(v.reqMeta.keyspace) + "," + verifC04Str(v.reqMeta.table) + ")," + verifC04Meta(v.respMeta, proto) + ")"
+	case *schemaChangeKeyspace:
+		return "H:" + h(v.frameHeader) + " F:SCK(" + verifC04Str(v.change) + "," + verifC04Str(v.keyspace) + ")"
+	case *schemaChangeTable:
+		return "H:" + h(v.frameHeader) + " F:SCT(" + verifC04Str(v.change) + "," + verifC04Str(v.keyspace) + "," + verifC04Str(v.object) + ")"
+	case *schemaChangeType:
+		return "H:" + h(v.frameHeader) + " F:SCU(" + verifC04Str(v.change) + "," + verifC04Str(v.keyspace) + "," + verifC04Str(v.object) + ")"
+	case *schemaChangeFunction:
+		return "H:" + h(v.frameHeader) + " F:SCF(" + verifC04Str(v.change) + "," + verifC04Str(v.keyspace) + "," + verifC04Str(v.name) + "," + verifC04StrList(v.args) + ")"
+	case *schemaChangeAggregate:
+		return "H:" + h(v.frameHeader) + " F:SCA(" + verifC04Str(v.change) + "," + verifC04Str(v.keyspace) + "," + verifC04Str(v.name) + "," + verifC04StrList(v.args) + ")"
+	case *topologyChangeEventFrame:
+		return "H:" + h(v.frameHeader) + " F:TOPO(" + verifC04Str(v.change) + "," + verifC04Hex(v.host) + fmt.Sprintf(",%d)", v.port)
+	case *statusChangeEventFrame:
+		return "H:" + h(v.frameHeader) + " F:STAT(" + verifC04Str(v.change) + "," + verifC04Hex(v.host) + fmt.Sprintf(",%d)", v.port)
+	}
+	return fmt.Sprintf("?%T", fr)
+}
+
+// verifC04Dump: everything parseFrame left behind: f.traceID, f.header.warnings, f.customPayload,
+// the frame struct, and the unread rest of f.buf.
+func verifC04Dump(fr frame, f *framer) string {
+	w := "nil"
+	if f.header.warnings != nil {
+		w = verifC04StrList(f.header.warnings)
+	}
+	p := "nil"
+	if f.customPayload != nil {
+		keys := make([]string, 0, len(f.customPayload))
+		for k, v := range f.customPayload {
+			keys = append(keys, verifC04Str(k)+"="+verifC04Hex(v))
+		}
+		sort.Strings(keys)
+		p = "{" + strings.Join(keys, ",") + "}"
+	}
+	return fmt.Sprintf("ok S:%d,%d T:", f.header.stream, byte(f.header.op)) + verifC04Hex(f.traceID) + " W:" + w + " P:" + p + " " + verifC04Frame(fr, f) + " R:" + verifC04Hex(append([]byte{}, f.buf...))
+}
+
+// VerifC04Recv does what Conn.recv + the caller of parseFrame do with the bytes of one frame:
+// readHeader, newFramer(comp, proto).readFrame, parseFrame. A runtime panic propagates to the caller.
+func VerifC04Recv(proto byte, comp Compressor, wire []byte) (dump string, fr interface{}, f interface{}, err error) {
+	r := bytes.NewReader(wire)
+	var p [maxFrameHeaderSize]byte
+	head, err := readHeader(r, p[:])
+	if err != nil {
+		return "", nil, nil, fmt.Errorf("header: %v", err)
+	}
+	fm := newFramer(comp, proto)
+	if err = fm.readFrame(r, &head); err != nil {
+		return "", nil, nil, fmt.Errorf("frame: %v", err)
+	}
+	if r.Len() != 0 {
+		return "", nil, nil, fmt.Errorf("frame: %d trailing bytes", r.Len())
+	}
+	x, err := fm.parseFrame()
+	if err != nil {
+		return "", nil, nil, err
+	}
+	return verifC04Dump(x, fm), x, fm, nil
+}
+
+// VerifC04ParseBody runs parseFrame on a framer whose header and (already decompressed) body are given.
+func VerifC04ParseBody(proto byte, version, flags, op byte, stream int, body []byte) (string, error) {
+	fm := newFramer(nil, proto)
+	fm.header = &frameHeader{version: protoVersion(version), flags: flags, stream: stream, op: frameOp(op), length: len(body)}
+	if cap(fm.readBuffer) >= len(body) { // as readFrame does
+		fm.buf = fm.readBuffer[:len(body)]
+	} else {
+		fm.readBuffer = make([]byte, len(body))
+		fm.buf = fm.readBuffer
+	}
+	copy(fm.buf, body)
+	x, err := fm.parseFrame()
+	if err != nil {
+		return "", err
+	}
+	return verifC04Dump(x, fm), nil
+}
+
+// VerifC04Iter parses one RESULT/Rows wire frame and builds the Iter the way executeQuery does for a
+// response that carries its metadata (conn.go: `iter := &Iter{meta: x.meta, framer: framer, numRows: x.numRows}`).
+func VerifC04Iter(proto byte, wire []byte) (*Iter, error) {
+	_, fr, f, err := VerifC04Recv(proto, nil, wire)
+	if err != nil {
+		return nil, err
+	}
+	x, ok := fr.(*resultRowsFrame)
+	if !ok {
+		return nil, fmt.Errorf("not a rows frame: %T", fr)
+	}
+	return &Iter{meta: x.meta, framer: f.(*framer), numRows: x.numRows}, nil
+}
+
+// VerifC04IterState: iter.err != nil, iter.pos, unread bytes of the framer's buffer.
+func VerifC04IterState(it *Iter) (failed bool, pos int, rest []byte) {
+	if it.framer != nil {
+		rest = append([]byte{}, it.framer.buf...)
+	}
+	return it.err != nil, it.pos, rest
+}
+
+// VerifC04IterMeta dumps iter.meta.
+func VerifC04IterMeta(it *Iter, proto byte) string { return verifC04Meta(it.meta, proto) }
+
+// VerifC04DisableControlConn: sessions on the in-memory cluster run without a control connection.
+func VerifC04DisableControlConn(cfg *ClusterConfig) { cfg.disableControlConn = true }
